@@ -368,7 +368,8 @@ fn gen_desc(rng: &mut Rng, cfg: &GenCfg) -> String {
             // cap, a 1 MiB limit): aim at 2^k, and let gen_good trim the line to land exactly on
             // 2^k - 1, 2^k, 2^k + 1 half of the time.
             let target = if cfg.long_lines {
-                let k = 10 + rng.usize_below(if cfg.thorough { 11 } else { 8 });
+                // up to 128 KiB normally; now and then beyond 1 MiB and 2 MiB also in the quick tier
+                let k = if rng.chance(1, 40) { 20 + rng.usize_below(2) } else { 10 + rng.usize_below(if cfg.thorough { 11 } else { 8 }) };
                 (1usize << k) - 48 + rng.usize_below(96)
             } else {
                 200 + rng.usize_below(800)
